@@ -188,6 +188,10 @@ def s_fout(b, t):
         kinds += ["concatenate"]
     if tv.ndim >= 1 and 1 <= min(sh) and any(d <= 3 for d in sh):
         kinds += ["stack"]
+    if b.meta.get(t, {}).get("cv"):
+        # clip(out=) is two chained in-place steps (maximum, then minimum READING the target): on a constant-view target the second step's
+        # operand is the constant target itself, which is the known finding seen from the operand's side rather than a new behaviour
+        kinds = [k_ for k_ in kinds if k_ != "clip"]
     kind = rng.choice(kinds)
     kw = {}
     if kind == "matmul":
@@ -227,6 +231,10 @@ def s_setshape(b, t):
         return False
     if sum(1 for v in b.it.env.values() if v is tv) > 1:
         return False  # NumPy handed the same array object to two names; a Tensor view cannot mirror object identity
+    made = next((q for q in b.prog if q.get("out") == t and q["k"] == "call"), None)
+    if made is not None and OT.SPECS[made["fn"]].npf is None and OT.SPECS[made["fn"]].kind not in ("u1", "u2"):
+        return False  # the memory layout of a MyGrad-only function's result (batchnorm, ...) is not specified by a NumPy namesake: whether
+        #               an in-place reshape is possible then depends on it, and the loop reference need not reproduce it
     dims = B.factorizations(tv.size, rng)
     if rng.random() < 0.2:
         dims[rng.randrange(len(dims))] = -1
@@ -256,7 +264,14 @@ def s_view(b, t, const_kw_prob=0.0):
             st.setdefault("kw", {})["constant"] = flag
             if st.get("sp") in ("np", "op"):
                 st["sp"] = "mg"
+            was = b.meta[t]["nonconst"] or b.meta[t].get("cv")
             b.meta[n]["nonconst"] = not flag
+            if flag and was and getattr(b, "cv_as_targets", False):
+                # a CONSTANT view of memory that belongs to a non-constant tensor: offered as an in-place TARGET only (reading through it
+                # legitimately transmits no gradient - C10 - which the finite-difference model of shared memory cannot express)
+                b.meta[n]["cv"] = True
+                b.meta[n]["tensor"] = False
+                b.cv_targets = getattr(b, "cv_targets", []) + [n]
         return n
     # diagonal / permutation through einsum (view-producing forms)
     if tv.ndim == 2 and tv.shape[0] == tv.shape[1] and rng.random() < 0.5:
@@ -286,8 +301,27 @@ def s_read(b, t):
         fn = rng.choice(["add", "multiply", "subtract"])
         args = [R(t), y] if rng.random() < 0.5 else [y, R(t)]
         return b.call(fn, args, sp=rng.choice(["mg", "op", "np"]))
-    if c < 0.85:
+    if c < 0.74:
         return B.g_reduce(b, fn=rng.choice(["sum", "mean"]))
+    if c < 0.8:
+        # the member fed to ONE einsum several times (the operation keeps per-operand bookkeeping keyed by the operand)
+        lbl = "abc"[: tv.ndim]
+        form = rng.choice([f"{lbl},{lbl}->{lbl}", f"{lbl},{lbl}->", f"{lbl},{lbl},{lbl}->{lbl}"])
+        return b.call("einsum", [form] + [R(t)] * form.split("->")[0].count(",") + [R(t)], sp=rng.choice(["mg", "np"]))
+    if c < 0.88 and tv.ndim == 1 and 1 <= tv.shape[0] <= 3 and getattr(b, "layer_reads", False):
+        # a layer that keeps references to its parameters besides Operation.variables: the family member is batchnorm's gamma / beta
+        # (C-contiguous data: the layout of batchnorm's result follows its input's, and later view-or-copy decisions follow that layout;
+        #  the loop reference only reproduces it for row-major input)
+        x = b.leaf((rng.randint(2, 3), tv.shape[0]) + ((rng.randint(1, 2),) if rng.random() < 0.4 else ()), layout="C")
+        kw = {"eps": rng.choice([1e-2, 1e-1])}
+        which = rng.choice(["gamma", "beta", "both"])
+        if which in ("gamma", "both"):
+            kw["gamma"] = R(t)
+        if which in ("beta", "both"):
+            kw["beta"] = R(t)
+        elif rng.random() < 0.5:
+            kw["beta"] = R(b.leaf((tv.shape[0],)))
+        return b.call("batchnorm", [R(x)], kw=kw, sp="mg")
     if tv.ndim >= 1 and min(tv.shape) >= 1:
         ix = B.rand_adv_index(rng, tv.shape)
         try:
@@ -327,8 +361,10 @@ def s_bad(b, t):
 
 
 def gen_history(rng, nstmts=(3, 12), int_prob=0.12, base_from_op_prob=0.4, second_family_prob=0.3, inplace_w=4, view_w=4, read_w=3,
-                setshape_w=0.6, max_ndim=3, layouts=None, nonconst_only=False, const_kw_prob=0.0, bad_w=0.0):
+                setshape_w=0.6, max_ndim=3, layouts=None, nonconst_only=False, const_kw_prob=0.0, bad_w=0.0, cv_as_targets=False, layer_reads=False):
     b = B.Builder(rng)
+    b.cv_as_targets = cv_as_targets
+    b.layer_reads = layer_reads      # (only where values are compared with a tolerance: the loop references sum in another order)
     shape = B.rand_shape(rng, max_ndim, 4, 1)
     is_int = rng.random() < int_prob
     if is_int:
@@ -361,6 +397,19 @@ def grow(b, rng, base, target, inplace_w=4, view_w=4, read_w=3, setshape_w=0.6, 
         mem = members(b)
         if nonconst_only and a in ("inplace", "setshape"):
             mem = [m for m in mem if b.meta[m]["nonconst"]]
+        if a == "inplace":
+            mem = mem + [m for m in getattr(b, "cv_targets", []) if m in b.it.env]
+            if getattr(b, "cv_as_targets", False):
+                # (gradient-judging histories: memory OWNED by a constant tensor is not written through its non-constant views - whether a
+                #  value written there can pass its gradient on through the constant owner is C10's question, not the FD model's)
+                from mgverif.hooks import root_array as _root
+                def _owner_ok(m):
+                    r_ = _root(b.val(m))
+                    for n2, v2 in b.it.env.items():
+                        if v2 is r_ and n2 in b.meta:
+                            return bool(b.meta[n2]["nonconst"])
+                    return True
+                mem = [m for m in mem if _owner_ok(m)]
         if not mem:
             if nonconst_only:
                 continue
@@ -401,6 +450,9 @@ def epoch_boundary(b, rng, keep_hint=()):
     fam = {}
     for n in keep_hint:
         v = b.it.env.get(n)
+        made = next((q for q in b.prog if q.get("out") == n and q["k"] == "call"), None)
+        if made is not None and OT.SPECS[made["fn"]].npf is None and OT.SPECS[made["fn"]].kind not in ("u1", "u2"):
+            continue    # result of a MyGrad-only function: its memory layout (hence view-or-copy of later reshapes) has no NumPy specification
         if sum(1 for w in b.it.env.values() if w is v) > 1:
             continue    # the same object under two names (atleast_kd of a tensor that already has k dimensions returns the tensor itself)
         if isinstance(v, np.ndarray) and v.dtype.kind == "f" and v.size and b.meta[n]["nonconst"] and (v.flags.c_contiguous or v.flags.f_contiguous):
@@ -408,6 +460,7 @@ def epoch_boundary(b, rng, keep_hint=()):
     survivors = [rng.choice(ns) for ns in fam.values()]
     if not survivors:
         return None
+    b.cv_targets = []      # constant views of the finished epoch are not written through any more
     for n, m in b.meta.items():
         if n not in survivors and m["tensor"]:
             m["tensor"] = False
